@@ -4,6 +4,7 @@ import (
 	"fmt"
 	"net/http"
 	"strings"
+	"time"
 
 	"verifsim/kernel"
 	"verifsim/simnet"
@@ -102,7 +103,16 @@ func runC03(k *kernel.K) {
 	for _, a := range origins {
 		os = append(os, NewOrigin(k, n, a, plan))
 	}
-	// refuse.test:80 has no handler: dials are refused.
+	// refuse.test has no handler: dials are refused. timeout.test: dials hang, then time out.
+	n.TimeoutAddrs = map[string]bool{"timeout.test:80": true, "timeout.test:443": true}
+	k.AddSource(func(add func(kernel.Action)) {
+		if n.SleepingDials() > 0 {
+			add(kernel.Action{Key: "advance past dial timeout", W: 2, Class: kernel.Clock, Do: func() {
+				k.FaultFired("dial_timeout")
+				k.Advance(31 * time.Second)
+			}})
+		}
+	})
 	var clients []*Client
 	k.StateFn = func() string {
 		var sb strings.Builder
@@ -149,8 +159,21 @@ func runC03(k *kernel.K) {
 	addSub := func(f c03Fault, host string, maxBody int, shape *RespSpec) *c03Sub {
 		s := &c03Sub{idx: len(subs), fault: f, reqs: map[int]*ReqSpec{}, resps: map[int]*RespSpec{}}
 		fr := mkReq(host, k.W.Chance(1, 3))
-		if f.Kind == "refuse" {
+		switch f.Kind {
+		case "refuse":
 			fr.Host = "refuse.test:80"
+			k.FaultFired("dial_refused")
+		case "dialtimeout":
+			fr.Host = "timeout.test:80"
+		case "connect_refuse", "connect_timeout":
+			// A CONNECT whose target cannot be reached.
+			host := "refuse.test:443"
+			if f.Kind == "connect_timeout" {
+				host = "timeout.test:443"
+			} else {
+				k.FaultFired("dial_refused")
+			}
+			*fr = ReqSpec{ID: fr.ID, Method: "CONNECT", Host: host, Path: host}
 		}
 		s.faultID = fr.ID
 		s.reqs[fr.ID] = fr
@@ -187,7 +210,7 @@ func runC03(k *kernel.K) {
 	} else {
 		nsub := k.W.Range(2, 10)
 		for i := 0; i < nsub; i++ {
-			kind := []string{"cut", "cut", "garbage", "refuse", "abort", "none"}[k.W.Draw(6)]
+			kind := []string{"cut", "cut", "garbage", "refuse", "abort", "none", "dialtimeout", "connect_refuse", "connect_timeout"}[k.W.Draw(9)]
 			f := c03Fault{Kind: kind}
 			maxBody := []int{100, 2000, 70000}[k.W.Pick([]int{4, 3, 1})]
 			s := addSub(f, origins[k.W.Draw(len(origins))], maxBody, nil)
@@ -270,7 +293,7 @@ func c03Check(k *kernel.K, s *c03Sub, resps map[int]*RespSpec, attempts map[int]
 		default:
 			region = "body"
 		}
-	case "garbage", "refuse":
+	case "garbage", "refuse", "dialtimeout", "connect_refuse", "connect_timeout":
 		region = "head"
 		mandatory502 = true
 	}
